@@ -124,15 +124,22 @@ class NetScenario:
                 self.do(f"net connect {self.nc} {src} {dst}")
             else:
                 self.do("net tables")
-        # quiet down: a loss-free network, everything that is open is read to the end
-        for rnd in range(14):
+        # quiet down: a loss-free network, everything that is open is read to the end - for as long as bytes keep
+        # arriving (at least 14 rounds, and until 4 rounds in a row brought nothing)
+        quiet, rnd = 0, 0
+        while rnd < 14 or (quiet < 4 and rnd < 400):
+            rnd += 1
             self.pump(200, clean=True)
+            got = False
             for name, c in self.calls.items():
                 if c["state"] == "pending":
                     self.state(name)
                 if c["state"] == "open":
-                    self.do(f"net read {name} 65536")
+                    if self.do(f"net read {name} 65536").startswith("data:"):
+                        got = True
+            quiet = 0 if got else quiet + 1
             self.do(f"net adv {r.choice([45_000_000, 300_000_000])}")
+        self.do("net adv 7")          # marker: end of the quiet-down phase (the progress oracle judges here)
         self.do("net tables")
         for name, c in self.calls.items():
             if c["state"] == "pending":
@@ -187,6 +194,59 @@ def stale_shutdown_cases(P, seed, n=24):
     return cases
 
 
+def slow_reader_cases(P, seed, n=12):
+    """Bulk transfer over a loss-free network to a reader that lets its (small) buffer fill up, then drains it:
+    flow control has to close the window and re-open it, with real tasks and wakers (C02 progress, C07 window update).
+    Ends with the same marker as the random scenarios so that the progress oracle judges it."""
+    import random
+    impl = Impl()
+    cases = []
+    try:
+        for k in range(n):
+            r = random.Random(seed * 7919 + k)
+            ops = []
+
+            def do(l):
+                ops.append(l)
+                return impl.op(l)
+            do(f"net new seed={seed * 1000 + 500 + k} max=8 socks=2 rx={r.choice([2048, 4096, 16384])} tx0={r.choice([2048, 8192])} inact_ms=10000")
+            do("net accept 1 2")
+            do("net connect 1 1 2")
+            for _ in range(3):
+                do("net pump 20")
+                do("net adv 1000000")
+            if not (do("net state c1").startswith("ok:") and do("net state a1").startswith("ok:")):
+                continue
+            total = r.choice([20000, 60000, 150000])
+            # the sender keeps its buffer full; the reader reads rarely and little, then everything
+            written, rnd = 0, 0
+            while rnd < 400:
+                rnd += 1
+                if written < total:
+                    out = do(f"net write c1 {min(r.choice([1400, 3000, 9000]), total - written)}")
+                    if out.startswith("ready:"):
+                        written += int(out.split(":")[1])
+                do("net pump 50")
+                if r.random() < 0.25:
+                    do(f"net read a1 {r.choice([1, 100, 700, 1500])}")
+                do(f"net adv {r.choice([1000000, 5000000, 45000000])}")
+                if written >= total and rnd > 30:
+                    break
+            quiet, rnd = 0, 0
+            while rnd < 8 or (quiet < 4 and rnd < 600):
+                rnd += 1
+                do("net pump 200")
+                got = do("net read a1 65536").startswith("data:")
+                quiet = 0 if got else quiet + 1
+                do(f"net adv {r.choice([45000000, 300000000])}")
+            do("net adv 7")
+            do("net tables")
+            cases.append(ops)
+    finally:
+        impl.close()
+    return cases
+
+
 def _cache_key(seed, tier):
     import hashlib
     h = hashlib.sha1()
@@ -217,6 +277,7 @@ def gen_net(P):
         finally:
             impl.close()
         cases += stale_shutdown_cases(P, seed, P.scale(tier, 24, 200))
+        cases += slow_reader_cases(P, seed, P.scale(tier, 12, 150))
         try:
             os.makedirs(cdir, exist_ok=True)
             for fn in os.listdir(cdir):
@@ -256,6 +317,8 @@ class NetTrace:
                         c["ok_at"] = i
                 if t[1] == "write" and out.startswith("ready:"):
                     c["w"] += int(out.split(":")[1])
+                if t[1] in ("write", "flush", "shutdown") and out.startswith("err"):
+                    c["werr"] = out
                 if t[1] == "read":
                     if out.startswith("data:"):
                         c["read"] += bytes.fromhex(out[5:])
@@ -331,6 +394,44 @@ def oracle_streams(P):
     return orc
 
 
+def oracle_progress(P):
+    """C02 with real tasks, loss-free runs only: on a network that never loses, duplicates or reorders anything, with
+    every reader reading, every byte accepted by write is readable at the peer once the traffic has died down (the
+    generator keeps pumping and reading until four rounds in a row bring no byte). A shortfall means the transfer
+    stalled although nothing was ever lost."""
+    def orc(case, impl):
+        for l in case:
+            if l.startswith("net pump"):
+                kv = dict(x.split("=", 1) for x in l.split()[3:] if "=" in x)
+                if any(int(kv.get(k, 0)) != 0 for k in ("loss", "dup", "reorder")):
+                    return []
+        try:
+            end = case.index("net adv 7")
+        except ValueError:
+            return []
+        tr = NetTrace(case[:end], impl[:end])
+        hits = []
+        peer_by_tag = {c["tag"]: n for n, c in tr.calls.items()}
+        for name, c in tr.calls.items():
+            if c["closed"] or c.get("rerr") or not (c["res"] or "").startswith("ok:"):
+                continue
+            data = bytes(c["read"])
+            # the peer: the call whose tag this stream carries, or - nothing read yet - unknown
+            if not data:
+                continue
+            peer = peer_by_tag.get(tag_of_first_byte(data[0]))
+            if peer is None:
+                continue
+            c2 = tr.calls[peer]
+            if c2["closed"] or c2.get("rerr") or c2.get("werr") or not (c2["res"] or "").startswith("ok:"):
+                continue
+            if len(data) < c2["w"]:
+                hits.append({"sig": {"oracle": "net_progress", "what": "stalled_on_a_loss_free_network"},
+                             "text": f"{name} has read {len(data)} of the {c2['w']} bytes {peer} wrote; nothing was ever lost, duplicated or reordered, both ends are open and the reader kept reading until four rounds in a row brought nothing"})
+        return hits[:2]
+    return orc
+
+
 def oracle_limit_release(P):
     """C12 limit and C08 release with real tasks: never more table entries than the limit; once every stream is
     dropped and the timeouts have passed, the tables are empty and the wire stays silent."""
@@ -392,5 +493,9 @@ def register(P):
         P.PROPS[pid]["oracles"]["net_streams"] = oracle_streams(P)
         P.PROPS[pid]["oracles"]["net_tables"] = oracle_limit_release(P)
         P.PROPS[pid]["trusted"] = P.PROPS[pid]["trusted"] + ["component `net` (several real sockets with real dispatcher and connection tasks over a scripted lossy network) has NO model: it is an implementation-side oracle run only (tagged per-stream payload integrity, pairing, limit, release); it supports the search for failing inputs and the validation of what the dispatcher model leaves out, it proves nothing"]
+    P.ORACLE_COMPONENT["net_progress"] = "net"
+    P.PROPS["C02"]["components"].append("net")
+    P.PROPS["C02"]["oracles"]["net_progress"] = oracle_progress(P)
+    P.PROPS["C02"]["trusted"] = P.PROPS["C02"].get("trusted", []) + ["component `net` (real sockets, dispatcher and connection tasks over a scripted network) has no model: oracle-only"]
     P.PROPS["C08"]["components"].append("net")
     P.PROPS["C08"]["oracles"]["net_tables"] = oracle_limit_release(P)
